@@ -3,6 +3,7 @@ import CedarVerif.Lemmas.ManifestEnd
 import CedarVerif.Lemmas.ManifestValid
 import CedarVerif.Lemmas.ManifestLitValid
 import CedarVerif.Lemmas.ManifestSorted
+import CedarVerif.Lemmas.ManifestMono
 import CedarVerif.Lemmas.TypecheckPolicy
 import CedarVerif.Thm.C01
 import CedarVerif.Thm.C11
@@ -493,6 +494,59 @@ example :
       simp only [Ex.pol3, SafeOps, and_true]
       exact ⟨nonRec_of_check rfl, nonRec_of_check rfl⟩
   · decide +kernel
+
+/-! ## "a larger trie keeps more ENTITIES": the positive statement, under agreeing annotations -/
+
+/-- C17, STORE-LEVEL MONOTONICITY.  If `t'` requests everything `t` requests (`rootsLe`) and the `is_entity_type` annotations
+agree (`FlagsAgreeRoots t t'`: at corresponding nodes — same root, same path of fields — `t'` is annotated entity-typed only
+where `t` is; ancestors tries need no condition, nothing reads annotations there), then the store sliced by `t` is a
+sub-store of the store sliced by `t'`: every entity of the smaller slice is in the larger one, with at least its attributes
+(`TrimKVs`) and at least its ancestors.  (`SubStore big small` reads "small invents nothing over big".)
+`slice_monotone_entities_needs_flags` shows that the annotation condition cannot be dropped.  No well-formedness (unique
+keys) or conformance hypothesis is needed. -/
+theorem slice_monotone_store (t t' : RootAccessTrie) (req : Request) (es s s' : Entities)
+    (hle : rootsLe t t') (hfl : FlagsAgreeRoots t t')
+    (hs : sliceStore (some t) req es = .ok s) (hs' : sliceStore (some t') req es = .ok s') : SubStore s' s := by
+  have e1 : s = sliceStorePure t req es := by
+    simp only [sliceStore] at hs
+    split at hs
+    · cases hs
+    · cases hs; rfl
+  have e2 : s' = sliceStorePure t' req es := by
+    simp only [sliceStore] at hs'
+    split at hs'
+    · cases hs'
+    · cases hs'; rfl
+  subst e1; subst e2
+  exact sliceStorePure_mono t t' req es (rootsLeA_of_le_agree t t' hle hfl)
+
+/-- the same for the pure result (whether or not one of the slicer's `assert!`s would fire) -/
+theorem slice_monotone_store_pure (t t' : RootAccessTrie) (req : Request) (es : Entities)
+    (hle : rootsLe t t') (hfl : FlagsAgreeRoots t t') :
+    SubStore (sliceStorePure t' req es) (sliceStorePure t req es) :=
+  sliceStorePure_mono t t' req es (rootsLeA_of_le_agree t t' hle hfl)
+
+namespace Ex
+/-- the manifest entry of the first policy alone -/
+def manifest1 : RootAccessTrie := match manifestOfEnvs schema rt [pol.cond] with | .ok t => t | .error _ => []
+def sliced1 : Entities := match sliceStore (some manifest1) req store with | .ok es => es | .error _ => []
+end Ex
+
+/-- non-vacuity of `slice_monotone_store`: the manifest of `p0` alone against the manifest of `p0, p1, p2` — all
+hypotheses hold, and the larger slice is strictly larger (it keeps `alice`'s ancestor `Group::"g"`, requested by `p2` only) -/
+example : SubStore Ex.sliced' Ex.sliced1 ∧
+    (Ex.sliced1.find? Ex.alice).map (·.ancestors) = some [] ∧ (Ex.sliced'.find? Ex.alice).map (·.ancestors) = some [Ex.grp] := by
+  refine ⟨?_, by decide +kernel, by decide +kernel⟩
+  have hs : sliceStore (some Ex.manifest1) Ex.req Ex.store = .ok Ex.sliced1 := by
+    obtain ⟨x, hx⟩ := ok_of_check (r := sliceStore (some Ex.manifest1) Ex.req Ex.store) (by decide +kernel)
+    have : Ex.sliced1 = x := by simp only [Ex.sliced1, hx]
+    rw [this]; exact hx
+  have hs' : sliceStore (some Ex.manifest) Ex.req Ex.store = .ok Ex.sliced' := by
+    obtain ⟨x, hx⟩ := ok_of_check (r := sliceStore (some Ex.manifest) Ex.req Ex.store) (by decide +kernel)
+    have : Ex.sliced' = x := by simp only [Ex.sliced', hx]
+    rw [this]; exact hx
+  exact slice_monotone_store Ex.manifest1 Ex.manifest Ex.req Ex.store _ _
+    (rootsLeB_sound _ _ (by decide +kernel)) (flagsAgreeRootsB_sound _ _ (by decide +kernel)) hs hs'
 
 /-! ## strictly valid policies, conformant data: the C03 and C11 notions -/
 
